@@ -448,8 +448,12 @@ func (w *c26worker) judge(caseName string, q *query) {
 		wit["replay"] = "rows are regenerated from the case: " + caseName
 	}
 	sig := q.signature()
+	if q.Left {
+		op = "left_" + op
+	}
+	// key layout: the defect-discriminating parts first, so that known-finding patterns can end in '*'
 	key := func(why string, want []crow) string {
-		return "c26/" + q.Kind + "/" + op + "/" + sig + "/" + why + "-" + direction(r1.rows, want)
+		return "c26/indexed/" + op + "/" + direction(r1.rows, want) + "/" + sig + "/" + q.Kind + "/" + why
 	}
 	// twinVerdict: the twin query is itself a read query on dolt tables (keyless, unindexed). It is judged against the
 	// SAME query on the reference engine's own keyless unindexed twins (same physical design on both sides), so that a
@@ -477,7 +481,7 @@ func (w *c26worker) judge(caseName string, q *query) {
 		fill()
 		wit["judged_query"] = q.sql(vTwin)
 		wit["kvexec_iter_twin"] = kvTwin
-		w.l.violation("c26/"+q.Kind+"/twin-"+kvTwin+"/"+sig+"/"+direction(r3.rows, r4u.rows), "dolt's answer on keyless unindexed tables differs from the reference engine's answer on its own keyless unindexed copy of the same data: "+firstDiff(r3.rows, r4u.rows), wit)
+		w.l.violation("c26/twin/"+kvTwin+"/"+direction(r3.rows, r4u.rows)+"/"+sig+"/"+q.Kind, "dolt's answer on keyless unindexed tables differs from the reference engine's answer on its own keyless unindexed copy of the same data: "+firstDiff(r3.rows, r4u.rows), wit)
 	}
 	defer twinVerdict()
 
@@ -492,7 +496,7 @@ func (w *c26worker) judge(caseName string, q *query) {
 	if r1.err != nil {
 		if r3.err == nil && r4.err == nil {
 			fill()
-			w.l.violation("c26/"+q.Kind+"/"+op+"/"+sig+"/error", "dolt fails on the indexed tables where the unindexed twin and the reference answer: "+truncate(r1.err.Error(), 300), wit)
+			w.l.violation("c26/indexed/"+op+"/error/"+sig+"/"+q.Kind, "dolt fails on the indexed tables where the unindexed twin and the reference answer: "+truncate(r1.err.Error(), 300), wit)
 			return
 		}
 		cnt.add("errors_in_every_voice", 1)
